@@ -4,4 +4,6 @@ set -e
 cd /verif
 export CARGO_NET_OFFLINE=true
 cargo build --release --offline 2>&1 | tail -3
+cargo build --release --offline --features miniwasm --target-dir /verif/target-mw 2>&1 | tail -3
 ./target/release/harness selftest
+./target-mw/release/harness selftest
